@@ -43,7 +43,7 @@ Accepted == /\ l = Len(Runs[r].events) + 1
             /\ \A th \in Thread : result[th] = Runs[r].results[th] /\ rdata[th] = Runs[r].data[th]
 
 \* progress registers: the furthest event matched per run (workers = 1)
-Note == /\ (TLCGet(r) < l => TLCSet(r, l))
+Note == /\ ((TLCGet(r) >= 0 /\ TLCGet(r) < l) => TLCSet(r, l))
         /\ (Accepted => TLCSet(r, 0 - 1))
 NoteInit == TLCSet(r, 0)
 Report == \A k \in 1..Len(Runs) :
